@@ -130,6 +130,30 @@ fn check(prop: &str, tier: &str) -> i32 {
             "every sequence of table operations over the listed alphabets up to the depth bound, from every seed tree (empty, full leaf, 2- and 3-level, big value, sparse, clean and dirty pages); each returned value, the final scan, the committed dump, page accounting and the independent decoder are compared with a BTreeMap; distinct = distinct observation vectors",
             &["the reference model is std BTreeMap ordered by the native key order", "sequences longer than the depth bound are not explored"],
         ),
+        "C09" => run_seq(
+            prop,
+            tier,
+            "model_checking",
+            profiles::c09_profiles(quick),
+            "every sequence of multimap operations (insert, remove, remove_all with every consumption pattern, get/range in all directions, len, commit/abort/reopen) up to the depth bound from seeds whose middle key holds a value set right below / at / above the inline-to-subtree threshold and a 600-value subtree; every result, the final scan, the committed dump, page accounting and the independent decoder (inline vs subtree records, pair counts) are compared with BTreeMap<key,BTreeSet<value>>; distinct = distinct observation vectors",
+            &["reference model: BTreeMap<key, BTreeSet<value>> ordered by the native orders", "sequences longer than the depth bound are not explored"],
+        ),
+        "C17" => run_seq(
+            prop,
+            tier,
+            "model_checking",
+            profiles::c17_profiles(quick),
+            "every sequence of catalog operations (open by name/kind/type pair into two handle slots, close, insert/remove through a handle, rename and delete by name and by open handle incl. onto itself / onto an existing name / wrong kind, listings, commit/abort/commit+reopen) up to the depth bound from three seed catalogs; exact TableError variant, listings and contents are compared with a name -> (kind, types, contents) map; after the final commit page accounting holds and, after draining, a deleted table's pages are all free; distinct = distinct observation vectors",
+            &["names a,b,c; four (kind,type) combinations", "sequences longer than the depth bound are not explored"],
+        ),
+        "C18" => run_seq(
+            prop,
+            tier,
+            "model_checking",
+            profiles::c18_profiles(quick),
+            "every sequence of cursor operations (lower/upper_bound(_mut) at every bound kind and key class, peek/next/prev, insert_before/after with a key inside the gap / equal to either neighbour / outside, remove_next/prev, buffered runs of 5 and 40 inserts in both directions, close, drop, read-only cursor walks) up to the depth bound from empty / full-leaf / 2-level (and 3-level, sparse) trees; every returned entry, every accept/UnorderedKey decision, the table after close, the committed dump and the independent decoder are compared with a gap index over a sorted vector; distinct = distinct observation vectors",
+            &["reference model: position in a sorted Vec", "sequences longer than the depth bound are not explored"],
+        ),
         "C01" => run_crash(
             prop,
             tier,
